@@ -31,6 +31,7 @@ STRENGTH = {
  "C11/4": "the honest finalize is first attempted with the wallet's other account active (refused on the unchanged tree, then repeated under the sending account); if it is accepted everything downstream is judged -> c11:exported-proof-invalid",
  "C04/4": "histories may start with a pending send in each of two accounts whose log ids coincide (reserved / finalized / one of them cancelled); the scenario is also kept as regress/C04/seed4-*.json -> c04:*:ledger",
  "C17/4": "expiry part: new role self-send inside one account (sent and received entry share the slate id) and recipient that cancels and re-receives the same slate -> c17:expire:not-cancelled",
+ "C20/2": "new part dwn: the node event 'node unreachable' is a scheduler thread of its own; event start states x R in {scan, refresh} x {second refresh, block accepted, node unreachable} enumerated with preemption bound 1 (R interrupted once; block, refresh and node failure land in the gap in every order) -> c20:scan-stale-chain-view-undoes-spend",
  "C20/4": "needs 3 preemptions (cancel_tx suspended before its last lock while the refresh re-reads the entry): beyond the enumerated bounds (1 quick / 2 thorough); 160 constructed schedules of that shape are replayed as regression inputs (regress/C20/cancel-suspended-*.json) -> c20:kernel-confirm-overwrites-cancel",
  "C02/3": "same code change as C02/1, but after the late-lock repair in /repo it only shows when the refusal comes from the payment-proof check (after the lock): late-locked sends may now ask for a proof, new mutation PaymentProofSigFlip, then the genuine reply -> c02:retry:sent-entries",
  "C04/3": "new op LongWait (mempool mined, 51-56 empty blocks, all wallets refresh) -> c04:*:ledger",
